@@ -370,6 +370,16 @@ def run_case(ns, mon, c):
                     p_.data = rng.standard_normal(p_.shape)
             x = rng.standard_normal((3, w_))
             seq = nn.Sequential(*layers)
+            if layers and c["seed"] % 4 == 2 and len({id(l_) for l_ in layers}) == len(layers):
+                # the ordered-dict form; the caller then builds a second, longer container from the same dict and goes on editing the dict:
+                # the first container stays the composition of the entries it was given
+                from collections import OrderedDict as _OD
+                od_ = _OD((f"stage{i_}", l_) for i_, l_ in enumerate(layers))
+                seq = nn.Sequential(od_)
+                twin_ = nn.Sequential(od_)
+                twin_.register_module("head", nn.Tanh())
+                od_["late"] = nn.Sigmoid()
+                args = dict(args, ordered_dict_reused=True)
             if len(layers) >= 2 and c["seed"] % 3 == 0:
                 # an entry of the container is replaced after construction: the composition is that of the entries in their positions
                 keys_ = [k_ for k_, v_ in seq.__dict__.get("_submodules", {}).items()]
